@@ -289,6 +289,45 @@ def main():
             for k in kinds[:1]:
                 ck.dist('mutation:' + k if kind == 'mutated' else 'family:' + k)
 
+    # ================================================================ 2b. several files on one command line: an error in ANY of them decides the run
+    mf = os.path.join(wd, 'multi')
+    os.makedirs(mf, exist_ok=True)
+    GOOD = {'common.h': '#pragma once\nclass Common { public: int f(); };\n', 'guarded.h': '#ifndef G_H\n#define G_H\nclass Guarded { public: int g(); };\n#endif\n',
+            'plain.h': 'class Plain { public: int h(); };\n'}
+    BAD = {'broken_inc.h': '#include "common.h"\nclass Broken { public: int f( };\n', 'broken_inc2.h': '#include "guarded.h"\nstruct { int x\n', 'broken.h': 'int f(;\n',
+           'broken_tail.h': '#include "common.h"\nclass Late {};\n}\n'}
+    for n_, t_ in list(GOOD.items()) + list(BAD.items()):
+        open(os.path.join(mf, n_), 'w').write(t_)
+    orders = []
+    for bad_ in sorted(BAD):
+        for good_ in sorted(GOOD):
+            orders += [[bad_, good_], [good_, bad_], [good_, bad_, 'plain.h'] if good_ != 'plain.h' else [bad_, good_, 'common.h']]
+    orders += [[g1, g2] for g1 in sorted(GOOD) for g2 in sorted(GOOD) if g1 != g2]
+
+    def run_multi(i, files_):
+        oc, od = os.path.join(mf, 'mo%d.cxx' % i), os.path.join(mf, 'mo%d.in' % i)
+        rc, err = run_prog([ba['interrogate'], '-DCPPPARSER', '-oc', oc, '-od', od, '-module', 'm', '-library', 'l'] + [['-c', '-fnames'], ['-python-native']][i % 2] + files_, mf)
+        left = [f for f in (oc, od) if os.path.exists(f)]
+        for f in left:
+            os.unlink(f)
+        return [('interrogate(asan) ' + ' '.join(files_), rc, err, left)]
+    with ThreadPoolExecutor(vlib.NCPU) as ex:
+        futs = [(o_, ex.submit(run_multi, i, o_)) for i, o_ in enumerate(orders)]
+        for o_, f in futs:
+            res = f.result()
+            has_bad = any(x in BAD for x in o_)
+            okm = judge('multi-file', ['multi-file'], ' '.join(o_).encode(), res, {'files': dict(list(GOOD.items()) + list(BAD.items())), 'cmd': 'interrogate -oc o.cxx -od o.in ... ' + ' '.join(o_)})
+            # the run is judged by its own diagnostics above; independently of them, a command line that names a file with a syntax error may not succeed
+            if has_bad and res[0][1] == 0:
+                okm = False
+                ck.spec_failure('status:error-reported-but-exit-0', 'interrogate %s exits 0 although %s does not parse' % (' '.join(o_), [x for x in o_ if x in BAD]),
+                                {'kind': 'spec', 'files': dict(list(GOOD.items()) + list(BAD.items())), 'cmd': 'interrogate -oc o.cxx -od o.in -module m -library l ' + ' '.join(o_), 'stderr_tail': res[0][2][-1500:]})
+            if not has_bad and res[0][1] != 0:
+                okm = False
+                ck.spec_failure('status:valid-files-rejected', 'interrogate %s exits %s' % (' '.join(o_), res[0][1]), {'kind': 'spec', 'files': GOOD, 'stderr_tail': res[0][2][-1500:]})
+            if okm:
+                ck.nontrivial(('multi', tuple(o_)))
+
     # ================================================================ 3. -D definitions and .N files
     open(os.path.join(wd, 'd.h'), 'w').write('#ifdef X\nint with_x = X;\n#endif\nclass A { public: int f(); };\n')
     defs = [d.encode('latin-1') for d in fuzz.DEFINES]
